@@ -23,7 +23,7 @@ from .simfs import HarnessError, SimCrash, SimFS
 REPO_PREFIXES = ("/repo/compiler/", "/repo/lib/py/")
 SYSTEM_OPS = ("parse", "parse_string", "lint", "render", "cli")
 MAX_BUDGET = 120_000_000
-WALL_LIMIT_S = 30.0
+WALL_LIMIT_S = 60.0
 
 _ADDR = re.compile(r"0x[0-9a-fA-F]{6,}")
 
@@ -94,7 +94,9 @@ class CompilerProcess:
 
     def budget_parse(self, extra_chars: int = 0) -> int:
         chars, n = self.schema_chars()
-        return min(MAX_BUDGET, 2_000_000 + 2_000 * (chars + extra_chars) * max(1, n))
+        # calibration: building the ply tables costs ~90 k steps per (imported) file,
+        # lexing+parsing < 40 steps per character; a file may be parsed once per importer
+        return min(MAX_BUDGET, 3_000_000 + 300_000 * max(1, n) + 100 * (chars + extra_chars) * max(1, min(n, 4)))
 
     def budget_render(self, proto, optimize: bool) -> int:
         """Budget from a private walk of the tree (no bitproto method is called,
@@ -152,7 +154,8 @@ class CompilerProcess:
             return "exit:%s" % (exc.code,)
         if isinstance(exc, SystemExit):
             return "sysexit:%s" % (exc.code,)
-        if isinstance(exc, StepBudgetExceeded):
+        if isinstance(exc, StepBudgetExceeded) or self.clock.tripped:
+            # (a tripped clock wins even if the code turned the interruption into something else)
             return "hang:steps"
         if isinstance(exc, WallTimeout):
             return "hang:wall"
@@ -224,6 +227,9 @@ class CompilerProcess:
                     if "/verif/" not in fr.filename
                 ][-12:]
         rec["seams"] = [k for (_, k, _) in fs.trace]
+        wrote = sorted({p.rsplit("/", 1)[-1] for (_, k, p) in fs.trace if k == "open_w" and p})
+        if wrote:
+            rec["wrote"] = wrote
         rec["fired"] = list(fs.fired)
         planned = self.faults_by_op.get(i)
         if planned:
@@ -327,7 +333,7 @@ class CompilerProcess:
                 rec["paths"] = [p.rsplit("/", 1)[-1] for p in paths]
             return rec
         if kind == "cli":
-            budget = min(MAX_BUDGET, self.budget_parse() + 40_000_000)
+            budget = min(MAX_BUDGET, self.budget_parse() + 25_000_000)
             main = self.mod("bitproto._main")
             rec, _ = self.system_op(i, op, lambda: main.run_bitproto(), budget, argv=["bitproto"] + list(op["argv"]))
             if op.get("outdir_abs"):
